@@ -179,12 +179,12 @@ PROPS = {
         "extractors": ["ladders", "opcodes", "flags", "constants"],
         "theorems": ["ChiaModel.C03.locks_iff", "ChiaModel.C03.check_iff_core", "ChiaModel.C03.lock_refused_only_if_unsat",
                      "ChiaModel.C03.abs_height_refused_only_if_unsat", "ChiaModel.C03.abs_seconds_refused_only_if_unsat",
-                     "ChiaModel.TL.applyCond_locks", "ChiaModel.TL.condLoop_locks", "ChiaModel.TL.spendLoop_locks"],
-        "open": ["ephemeral rule as a theorem: a spend carrying a relative or birth condition (incl. negative relative ones) whose parent is spent in the bundle and created it is rejected - currently covered by validateConditions_iff (C01) plus correspondence only"],
+                     "ChiaModel.TL.applyCond_locks", "ChiaModel.TL.condLoop_locks", "ChiaModel.TL.spendLoop_locks", "ChiaModel.C03.ephemeral_rule"],
+        "open": [],
         "trivial": r"^(REJECT|bad-op|bad-tree)",
         "rule": "bundles of 1-3 spends with 0-5 lock/birth conditions each over all ten kinds, arguments from {0,1,2,100,2^31-1,2^31,2^32-3..2^32-1} (heights) and {0,1,2,1000,2^32-1,2^32,2^63-1,2^63,2^64-3..2^64-1} (seconds) plus negative / oversized / redundant-zero atoms; coin records with confirmation height and timestamp from the same pools (4% missing); previous height / timestamp drawn around record+lock thresholds (-1/0/+1, saturating) so equality boundaries and saturation are hit; 5/6 in the saturating mode (property), 1/6 legacy wrapping (correspondence only). non-trivial = distinct case that reached check_time_locks",
-        "level_text": "Proof: locks_iff - for every accepted generator output, flag set, coin-record map and chain state, check_time_locks (saturating mode) succeeds iff every spend has a record and every individual ASSERT_{HEIGHT,SECONDS}_{RELATIVE,ABSOLUTE}, ASSERT_BEFORE_* and ASSERT_MY_BIRTH_* assertion holds by its arithmetic definition with saturating sums. Proved by an invariant (max / min / common value of the individual arguments; 0 neutral for absolute) carried through the condition and spend loops of the parse_spends model, then monotonicity of saturating addition. lock_refused_only_if_unsat / abs_*_refused_only_if_unsat: a constraint is refused as impossible at parse time only when an earlier assertion contradicts it in every chain state. The driver prints the per-assertion verdict, so a disagreement with the implementation is a counterexample to the property.",
-        "level_note": "Trusted: Lean kernel + standard axioms; parse_spends and check_time_locks models = code only on the cases run. The legacy wrapping mode is modelled and compared but no theorem is claimed for it (the property excludes it). The ephemeral rule is not yet a theorem (see open_statements).",
+        "level_text": "Proof: locks_iff - for every accepted generator output, flag set, coin-record map and chain state, check_time_locks (saturating mode) succeeds iff every spend has a record and every individual ASSERT_{HEIGHT,SECONDS}_{RELATIVE,ABSOLUTE}, ASSERT_BEFORE_* and ASSERT_MY_BIRTH_* assertion holds by its arithmetic definition with saturating sums. Proved by an invariant (max / min / common value of the individual arguments; 0 neutral for absolute) carried through the condition and spend loops of the parse_spends model, then monotonicity of saturating addition. lock_refused_only_if_unsat / abs_*_refused_only_if_unsat: a constraint is refused as impossible at parse time only when an earlier assertion contradicts it in every chain state. ephemeral_rule: in every accepted output a spend carrying a relative or birth assertion (negative / oversized tautologies included) is not an ephemeral coin. The driver prints the per-assertion verdict, so a disagreement with the implementation is a counterexample to the property.",
+        "level_note": "Trusted: Lean kernel + standard axioms; parse_spends and check_time_locks models = code only on the cases run. The legacy wrapping mode is modelled and compared but no theorem is claimed for it (the property excludes it).",
     },
     "C04": {
         "extractors": ["ladders", "opcodes", "flags", "constants"],
